@@ -77,6 +77,12 @@ def check(run: Run) -> None:
         add(s, "seed", "total_file")
     for e in gens.editgen(run, seeds, cfg["repl"]):
         add(e["src"], f"edit:{e['op']}", "total_file")
+    from . import c10
+
+    fs = c10.generate(run, run.tier)
+    for c in fs[:: (6 if run.tier == "quick" else 1)]:
+        add(c["src"], "fstring.tla")
+        add(c["src"][1:-1] + "\n", "fstring.tla:stmt")
     by_op = {}
     for i, c in enumerate(cases):
         by_op.setdefault(c["op"], []).append(i)
